@@ -481,6 +481,11 @@ def coerce(v: Val, shape: Shape) -> Val:
     if isinstance(shape, SeqS) and isinstance(vs, SeqS):
         if vs.elem == shape.elem:
             return v
+        if isinstance(vs.elem, NoneS) and isinstance(shape.elem, OptS):
+            # [None] * n  as a list of Optional[...]
+            e = vnone_of(shape.elem)
+            arrs = [z3.K(z3.IntSort(), z3.simplify(l)) for l in leaves(e)]
+            return Val(shape, (arrs, v.d[1]))
         if vs.elem is None or isinstance(vs.elem, NoneS) and z3.is_int_value(v.d[1]) and v.d[1].as_long() == 0:
             return vseq_empty(shape.elem)
     if isinstance(shape, IntS) and isinstance(vs, BoolS):
